@@ -241,6 +241,178 @@ theorem C03_base_rates (op : FuseOp) (same : Bool) {b1 b2 a1 a2 : Fin n → ℚ}
   rw [fuseQ_a, baseRateQ_plain_ideal op same h1.hu h1.swf.u_le_one h2.hu h2.swf.u_le_one p1 p2 hsc,
     specA_ofFn]
 
+/-! ### operands inside the tolerance bands
+
+`is_vacuous()` holds on the band `[1-2ε, 1+4ε]`, `is_dogmatic()` on `[-ε, ε]`.  An operand inside a band is
+handled exactly as the exactly vacuous / dogmatic one, so the result is the specification's value AT THE
+REPLACED OPERAND.  For the belief part this is within `2ε` of the specification's value at the actual
+operand (ACm proved below); for the base rate it is NOT close in general, because the specification's
+base-rate weights `u2(1-u1) : u1(1-u2)` are discontinuous at `u1 = u2 = 1` (finding below).
+Avg has no vacuity test at all, so it agrees exactly with the specification on the whole band. -/
+
+/-- ACm / ECm / Wgh: a left operand in the vacuous band is fused exactly like the vacuous opinion with
+    the same base rate -/
+theorem C03_vacuous_band_eq_left {op : FuseOp} (hop : op ≠ .avg) (same : Bool)
+    {b1 b2 a1 a2 : Fin n → ℚ} {u1 u2 : ℚ} (h1 : WF b1 u1 a1) (h2 : WF b2 u2 a2)
+    (hv : 1 - 2 * f.eps ≤ u1) :
+    fuse op same (⟨liftT b1, XQ.fin u1, liftT a1⟩ : Opinion (XQ f) n) ⟨liftT b2, XQ.fin u2, liftT a2⟩
+      = fuse op same (⟨liftT (fun _ => (0 : ℚ)), XQ.fin 1, liftT a1⟩ : Opinion (XQ f) n)
+          ⟨liftT b2, XQ.fin u2, liftT a2⟩ := by
+  have v1 : GVac f u1 := (GVac_iff h1.swf.u_le_one).mpr hv
+  have h1' : WF (fun _ : Fin n => (0 : ℚ)) 1 a1 := SWF.vacuous.toWF h1.ha0 h1.ha
+  rw [fuse_lift_all op same h1 h2, fuse_lift_all op same h1' h2, fuseQ_vac_left hop same b1 a1 b2 a2 u2 v1]
+
+/-- … and symmetrically for the right operand -/
+theorem C03_vacuous_band_eq_right {op : FuseOp} (hop : op ≠ .avg) (same : Bool)
+    {b1 b2 a1 a2 : Fin n → ℚ} {u1 u2 : ℚ} (h1 : WF b1 u1 a1) (h2 : WF b2 u2 a2)
+    (hv : 1 - 2 * f.eps ≤ u2) :
+    fuse op same (⟨liftT b1, XQ.fin u1, liftT a1⟩ : Opinion (XQ f) n) ⟨liftT b2, XQ.fin u2, liftT a2⟩
+      = fuse op same (⟨liftT b1, XQ.fin u1, liftT a1⟩ : Opinion (XQ f) n)
+          ⟨liftT (fun _ => (0 : ℚ)), XQ.fin 1, liftT a2⟩ := by
+  have v2 : GVac f u2 := (GVac_iff h2.swf.u_le_one).mpr hv
+  have h2' : WF (fun _ : Fin n => (0 : ℚ)) 1 a2 := SWF.vacuous.toWF h2.ha0 h2.ha
+  rw [fuse_lift_all op same h1 h2, fuse_lift_all op same h1 h2', fuseQ_vac_right hop same b1 a1 b2 a2 u1 v2]
+
+/-- Avg agrees with the specification on every well-formed operand pair with `u = 0 ∨ ε < u`
+    (in particular on the whole vacuous band) -/
+theorem C03_avg_refines_spec (same : Bool) {b1 b2 a1 a2 : Fin n → ℚ} {u1 u2 : ℚ}
+    (h1 : WF b1 u1 a1) (h2 : WF b2 u2 a2) (p1 : PlainD f u1) (p2 : PlainD f u2)
+    (hsc : same = false → ∀ i, sc f a1 a2 i = true → a1 i = a2 i) :
+    ∃ (b : Fin n → ℚ) (u : ℚ) (a : Fin n → ℚ),
+      fuse .avg same (⟨liftT b1, XQ.fin u1, liftT a1⟩ : Opinion (XQ f) n) ⟨liftT b2, XQ.fin u2, liftT a2⟩
+        = ⟨liftT b, XQ.fin u, liftT a⟩ ∧
+      (List.ofFn b, u, List.ofFn a) = Oracle.fuseSpec (toOp .avg) same (List.ofFn b1) u1 (List.ofFn a1)
+        (List.ofFn b2) u2 (List.ofFn a2) := by
+  refine ⟨_, _, _, fuse_lift (by decide) same h1.swf h2.swf a1 a2, ?_⟩
+  rw [simplexQ_avg_plainD h1.swf h2.swf p1 p2,
+    baseRateQ_avg_plainD same h1.hu h1.swf.u_le_one h2.hu h2.swf.u_le_one p1 p2 hsc,
+    fuseSpec_ofFn_of_ne_ecm (by decide) same h1.swf h2.swf a1 a2]
+
+/-- ACm, left operand in the vacuous band `[1-2ε, 1]`, right operand plain: the belief part returned by
+    the code is within `2ε` (every mass and the uncertainty) of the specification's belief part, which is
+    `(List.ofFn bs, us)` -/
+theorem C03_vacuous_band_within (same : Bool) {b1 b2 : Fin n → ℚ} {u1 u2 : ℚ}
+    (h1 : SWF b1 u1) (h2 : SWF b2 u2) (hv : 1 - 2 * f.eps ≤ u1) (p2 : Plain f u2) (a1 a2 : Fin n → ℚ) :
+    ∃ (b : Fin n → ℚ) (u : ℚ) (a : Fin n → ℚ) (bs : Fin n → ℚ) (us : ℚ),
+      fuse .acm same (⟨liftT b1, XQ.fin u1, liftT a1⟩ : Opinion (XQ f) n) ⟨liftT b2, XQ.fin u2, liftT a2⟩
+        = ⟨liftT b, XQ.fin u, liftT a⟩ ∧
+      (List.ofFn bs, us) = Oracle.fuseSimplexSpec (toOp .acm) (List.ofFn b1) u1 (List.ofFn b2) u2 ∧
+      (∀ i, |b i - bs i| ≤ 2 * f.eps) ∧ |u - us| ≤ 2 * f.eps := by
+  have he := XQ.eps_pos f
+  have hl := XQ.eps_lt f
+  have v1 : GVac f u1 := (GVac_iff h1.u_le_one).mpr hv
+  have hu1 := h1.u_le_one
+  have hd0 : 0 ≤ 1 - u1 := sub_nonneg.mpr hu1
+  have z1 : u1 ≠ 0 := by intro h; rw [h] at hv; linarith
+  refine ⟨_, _, _, _, _, fuse_lift (by decide) same h1 h2 a1 a2,
+    (fuseSimplexSpec_ofFn .acm h1 h2).symm, ?_⟩
+  rw [simplexQ_vac_left (by decide) b1 b2 u2 v1,
+    simplexQ_plain_ideal .acm SWF.vacuous h2 plain_one p2]
+  by_cases z2 : u2 = 0
+  · subst z2
+    have e1 : idealS .acm (fun _ : Fin n => (0 : ℚ)) 1 b2 0 = (b2, 0) := by unfold idealS; simp
+    have e2 : idealS .acm b1 u1 b2 0 = (b2, 0) := by unfold idealS; simp [z1]
+    rw [e1, e2]
+    simp [he.le]
+  have e1 : idealS .acm (fun _ : Fin n => (0 : ℚ)) 1 b2 u2 = (b2, u2) := by
+    unfold idealS; simp only [one_ne_zero, z2, and_false, if_false]
+    rw [(acmB_vac_left SWF.vacuous).1, (acmB_vac_left (b2 := b2) (SWF.vacuous (n := n))).2]
+  have e2 : idealS .acm b1 u1 b2 u2 = (acmB b1 u1 b2 u2, acmU u1 u2) := by
+    unfold idealS; simp only [z1, z2, and_false, if_false]
+  rw [e1, e2]
+  have p1 : 0 < u1 := lt_of_le_of_ne h1.hu (Ne.symm z1)
+  have ht : 0 < u1 + u2 - u1 * u2 := acm_temp_pos p1 hu1 h2.hu
+  have htne : u1 + u2 - u1 * u2 ≠ 0 := ne_of_gt ht
+  have hu2t : u2 ≤ u1 + u2 - u1 * u2 := by nlinarith [mul_nonneg h1.hu (sub_nonneg.mpr h2.u_le_one)]
+  have hd2 : 1 - u1 ≤ 2 * f.eps := by linarith
+  -- any numerator `u2 * w` with `|w| ≤ 1 - u1` gives a quotient bounded by `2ε`
+  have bound : ∀ w : ℚ, |w| ≤ 1 - u1 → |u2 * w / (u1 + u2 - u1 * u2)| ≤ 2 * f.eps := by
+    intro w hw
+    rw [abs_div, abs_of_pos ht, div_le_iff₀ ht, abs_mul, abs_of_nonneg h2.hu]
+    calc u2 * |w| ≤ u2 * (1 - u1) := mul_le_mul_of_nonneg_left hw h2.hu
+      _ ≤ (u1 + u2 - u1 * u2) * (1 - u1) := mul_le_mul_of_nonneg_right hu2t hd0
+      _ ≤ (u1 + u2 - u1 * u2) * (2 * f.eps) := mul_le_mul_of_nonneg_left hd2 ht.le
+      _ = 2 * f.eps * (u1 + u2 - u1 * u2) := by ring
+  constructor
+  · intro i
+    have key : b2 i - acmB b1 u1 b2 u2 i
+        = u2 * (b2 i * (1 - u1) - b1 i) / (u1 + u2 - u1 * u2) := by
+      unfold acmB; rw [eq_div_iff htne, sub_mul, div_mul_cancel₀ _ htne]; ring
+    show |b2 i - acmB b1 u1 b2 u2 i| ≤ 2 * f.eps
+    rw [key]
+    apply bound
+    have hb1 := h1.b_le i
+    have hb1' := h1.hb i
+    have hb2 : b2 i ≤ 1 := by linarith [h2.b_le i, h2.hu]
+    have hb2' := h2.hb i
+    rw [abs_le]; constructor
+    · nlinarith [mul_nonneg hb2' hd0]
+    · nlinarith [mul_nonneg (sub_nonneg.mpr hb2) hd0]
+  · have key : u2 - acmU u1 u2 = u2 * (u2 * (1 - u1)) / (u1 + u2 - u1 * u2) := by
+      unfold acmU; rw [eq_div_iff htne, sub_mul, div_mul_cancel₀ _ htne]; ring
+    show |u2 - acmU u1 u2| ≤ 2 * f.eps
+    rw [key]
+    apply bound
+    rw [abs_of_nonneg (mul_nonneg h2.hu hd0)]
+    nlinarith [mul_nonneg (sub_nonneg.mpr h2.u_le_one) hd0]
+
+/-- FINDING (tolerance guard × discontinuous specification).  The fused BASE RATE of ACm is not close
+    to the specification's when an operand lies in the vacuous band: `u1 = 1-2ε` (treated as vacuous, so
+    the code returns the right operand's base rate `a2`), `u2 = 1-3ε` (plain), `a1 = (1,0)`, `a2 = (0,1)`.
+    The specification weighs `a1 : a2` as `u2(1-u1) : u1(1-u2) ≈ 2 : 3`; its entry 0 is at least `1/3`,
+    the code's is `0`.  (Every format; the belief parts still agree within `2ε`,
+    `C03_vacuous_band_within`.) -/
+theorem C03_vacuous_band_base_rate_jump (f : Fmt) :
+    WF (n := 2) ![2 * f.eps, 0] (1 - 2 * f.eps) ![1, 0] ∧
+    WF (n := 2) ![3 * f.eps, 0] (1 - 3 * f.eps) ![0, 1] ∧ Plain f (1 - 3 * f.eps) ∧
+    (∃ (b : Fin 2 → ℚ) (u : ℚ),
+      fuse .acm false (⟨liftT ![2 * f.eps, 0], XQ.fin (1 - 2 * f.eps), liftT ![1, 0]⟩ : Opinion (XQ f) 2)
+          ⟨liftT ![3 * f.eps, 0], XQ.fin (1 - 3 * f.eps), liftT ![0, 1]⟩
+        = ⟨liftT b, XQ.fin u, liftT ![0, 1]⟩) ∧
+    (∃ s : Fin 2 → ℚ,
+      Oracle.fuseBaseRateSpec (toOp .acm) (List.ofFn (![1, 0] : Fin 2 → ℚ)) (1 - 2 * f.eps)
+          (List.ofFn (![0, 1] : Fin 2 → ℚ)) (1 - 3 * f.eps) = List.ofFn s ∧ 1 / 3 ≤ s 0) := by
+  have he := XQ.eps_pos f
+  have hl := XQ.eps_lt f
+  have h1 : WF (n := 2) ![2 * f.eps, 0] (1 - 2 * f.eps) ![1, 0] := by
+    constructor
+    · exact Fin.forall_fin_two.mpr ⟨by simp; linarith, by simp⟩
+    · linarith
+    · simp [Fin.sum_univ_two]
+    · exact Fin.forall_fin_two.mpr ⟨by simp, by simp⟩
+    · simp [Fin.sum_univ_two]
+  have h2 : WF (n := 2) ![3 * f.eps, 0] (1 - 3 * f.eps) ![0, 1] := by
+    constructor
+    · exact Fin.forall_fin_two.mpr ⟨by simp; linarith, by simp⟩
+    · linarith
+    · simp [Fin.sum_univ_two]
+    · exact Fin.forall_fin_two.mpr ⟨by simp, by simp⟩
+    · simp [Fin.sum_univ_two]
+  refine ⟨h1, h2, Or.inr (Or.inr ⟨by linarith, by linarith⟩), ?_, ?_⟩
+  · refine ⟨(simplexQ f .acm ![2 * f.eps, 0] (1 - 2 * f.eps) ![3 * f.eps, 0] (1 - 3 * f.eps)).1,
+      (simplexQ f .acm ![2 * f.eps, 0] (1 - 2 * f.eps) ![3 * f.eps, 0] (1 - 3 * f.eps)).2, ?_⟩
+    rw [fuse_lift (by decide) false h1.swf h2.swf]
+    have nd1 : ¬ GDog f (1 - 2 * f.eps) := by
+      unfold GDog; rw [abs_of_pos (by linarith)]; linarith
+    have v1 : GVac f (1 - 2 * f.eps) := ⟨le_refl _, by linarith⟩
+    have nv2 : ¬ GVac f (1 - 3 * f.eps) := by rintro ⟨h, _⟩; linarith
+    have hA : baseRateQ f .acm false (![1, 0] : Fin 2 → ℚ) (1 - 2 * f.eps) ![0, 1] (1 - 3 * f.eps)
+        = ![0, 1] := by
+      unfold baseRateQ
+      simp only [Bool.false_eq_true, if_false, nd1, v1, nv2, false_and, and_false, true_or, if_true]
+    rw [hA]
+  · refine ⟨_, fuseBaseRateSpec_ofFn .acm _ _ _ _, ?_⟩
+    have z1 : (1 : ℚ) - 2 * f.eps ≠ 0 := by linarith
+    have n1 : (1 : ℚ) - 2 * f.eps ≠ 1 := by linarith
+    have e : idealA .acm (![1, 0] : Fin 2 → ℚ) (1 - 2 * f.eps) ![0, 1] (1 - 3 * f.eps)
+        = acmA ![1, 0] (1 - 2 * f.eps) ![0, 1] (1 - 3 * f.eps) := by
+      unfold idealA; simp only [z1, n1, false_and, if_false]
+    rw [e]
+    unfold acmA
+    simp only [Matrix.cons_val_zero]
+    rw [le_div_iff₀ (by nlinarith)]
+    nlinarith
+
 /-! ### non-vacuity -/
 
 /-- all hypotheses of `C03_refines_spec` are satisfied by a non-trivial instance: ECm at f32, ternary
